@@ -620,7 +620,7 @@ def run_case(c, specs, paths, wd):
 
 # ------------------------------------------------------------------ complete tile_fits runs
 
-def end_to_end(rng, wd, V, tier):
+def end_to_end(rng, wd, V, tier, forced="NO"):
     """A few complete toasty.tile_fits runs (no recorder): two files on a common
     TAN grid whose HDUs hold distinct constant values; the finite pixel values
     found in the deepest tiles must be exactly the values of the selected HDUs."""
@@ -652,11 +652,15 @@ def end_to_end(rng, wd, V, tier):
             paths.append(p)
             vals.append(fv)
         mode = rng.choice(("list", "list", "scalar", "none"))
+        if t == 0 and forced != "NO":
+            mode = "list" if isinstance(forced, list) else "none" if forced is None else "scalar"
         if mode == "list":
             sel = [rng.randint(1, 3), rng.randint(1, 3)]
+            if t == 0 and forced != "NO":
+                sel = list(forced)
             want = {vals[0][sel[0] - 1], vals[1][sel[1] - 1]}
         elif mode == "scalar":
-            sel = rng.randint(1, 3)
+            sel = forced if (t == 0 and forced != "NO") else rng.randint(1, 3)
             want = {vals[0][sel - 1], vals[1][sel - 1]}
         else:
             sel = None
@@ -729,6 +733,7 @@ def run(ctx, V):
     hist = {}
     n_pred = 0
     n_f1 = 0
+    f1_hits = []
     for i, (c, (obs, perr)) in enumerate(zip(cases, observed)):
         specs = pool[c["pool"]]
         route = c["route"]
@@ -771,16 +776,23 @@ def run(ctx, V):
                            "(`hdul[self._hdu_index]`), not the repaired model; " + RELNAMES.get(bad_new[i], ""))
             else:
                 rel = "C20 predicate on the implementation (model agrees with the implementation)"
-            if key:
-                n_f1 += 1
-                if n_f1 > 3:      # one defect: a few witnesses are enough, the count goes into the evidence
-                    continue
             case = dict(files=specs, sel={k: v for k, v in c.items() if k != "pool"})
+            if key:
+                # one defect: a few witnesses are enough (failing ones first), the count goes into the evidence
+                n_f1 += 1
+                f1_hits.append(((not why, not all(isinstance(e, tuple) for e in expected_items(specs, c["hs"], c["ws"]))), len(f1_hits), (rel, case,
+                                dict(selected=[list(e) if isinstance(e, tuple) else e for e in expected_items(specs, c["hs"], c["ws"])]),
+                                dict(export_simple=obs["exp"], descriptions=obs["desc"], images=obs["img"], why=why),
+                                bool(why) if why is not None else None)))
+                continue
             V.disagreement(rel, case,
                            dict(selected=None if c.get("raw") else [list(e) if isinstance(e, tuple) else e for e in expected_items(specs, c["hs"], c["ws"])]),
                            dict(export_simple=obs["exp"], descriptions=obs["desc"], images=obs["img"], why=why),
                            bool(why) if why is not None else None, finding_key=key)
-    n_e2e, e2e_samples = end_to_end(rng, wd, V, tier)
+    for _nf, _k, args in sorted(f1_hits, key=lambda t: t[:2])[:3]:
+        V.disagreement(*args, finding_key=F1_KEY)
+    forced = rp["case"]["e2e"]["hdu_index"] if rp and isinstance(rp.get("case"), dict) and "e2e" in rp["case"] else "NO"
+    n_e2e, e2e_samples = end_to_end(rng, wd, V, tier, forced)
     samples = []
     for c, (obs, _pe) in list(zip(cases, observed))[n_exh:n_exh + 3]:
         samples.append(dict(files=[[dict(kind=h["kind"], shape=h["shape"], wcs=h["wcs"]) for h in f] for f in pool[c["pool"]]],
